@@ -128,5 +128,10 @@ func init() {
 	addRule("C16", rule{name: "E-use", run: func(c *Ctx) { ruleEUse(c, append(append([]entrySpec{}, marshalEntries...), decodeEntries...), 30) }})
 	addRule("C17", rule{name: "E-use", run: func(c *Ctx) { ruleEUse(c, bip276Entries, 3) }})
 	addRule("C19", rule{name: "S-copy", run: ruleSCopyState})
+	// what belongs to one script does not leak into the next (operation count, offset, early-return mark, separator)
+	addRule("C05", rule{name: "S-perscript", run: ruleSPerScript})
+	addRule("C07", rule{name: "S-perscript", run: ruleSPerScript})
+	// the inscription is written with EncodeParts' pushes: each part behind its shortest prefix, nothing else
+	addRule("C20", rule{name: "W-enc", run: ruleWEnc})
 	addRule("C20", rule{name: "E-use", run: func(c *Ctx) { ruleEUse(c, ordEntries, 10) }})
 }
